@@ -109,8 +109,52 @@ def validate(chk, results):
     return sorted({int(m.group(1)) for m in re.finditer(r"tid = (\d+)", r.out)})
 
 
+def model_job(arg):
+    ns, nch, cap, lazy, saved, fail, mainkills = arg
+    mc = f"---- MODULE MC ----\nEXTENDS Pipeline\nFailDef == {V.to_tla(tuple(fail))}\nSavedDef == {V.to_tla(set(saved))}\n====\n"
+    cfg = (f"SPECIFICATION Spec\nCONSTANTS NS = {ns} NChunks = {nch} Cap = {cap} Lazy = {V.to_tla(lazy)} MainKills = {V.to_tla(mainkills)}\n"
+           "CONSTANT Fail <- FailDef\nCONSTANT Saved <- SavedDef\nINVARIANT NoDeadlock\nINVARIANT EveryoneStops\nINVARIANT CallerOutcome\n"
+           "INVARIANT EagerCap\nPROPERTY Terminates\nCHECK_DEADLOCK FALSE\n")
+    d = V.stage_spec(["Pipeline"], {"MC.tla": mc, "MC.cfg": cfg})
+    r = V.run_tlc(d, "MC", "MC.cfg", workers=1, timeout=1800, heap="3g")
+    return dict(arg=arg, generated=r.generated, distinct=r.distinct, depth=r.depth, ok=r.ok, violated=r.violated or ("deadlock" if r.deadlock else None),
+                wall=r.wall, out=None if (r.ok or r.violated or r.deadlock) else r.out[-1500:])
+
+
+def model_check(chk):
+    """Design level: the exception relay of the threaded processor (spec/Pipeline.tla), all schedules."""
+    quick = chk.tier == "quick"
+    work = []
+    for ns, nch in ((2, 2),) if quick else ((2, 2), (3, 2), (3, 3)):
+        saved_opts = [(), tuple(range(1, ns + 1))] if quick else [(), (1,), (ns,), tuple(range(1, ns + 1))]
+        for saved in saved_opts:
+            for lazy in (False, True):
+                fails = [("none", 0, 0)]
+                fails += [("stage", i, k) for i in range(1, ns + 1) for k in range(nch)]
+                fails += [("saver", i, k) for i in saved for k in range(nch)] + [("close", i, 0) for i in saved]
+                fails += [("consumer", 0, k) for k in range(1, nch + 1)] + [("stop", 0, k) for k in range(1, nch + 1)]
+                for f in fails:
+                    work.append((ns, nch, 1 if quick else 2, lazy, saved, f, True))
+    # vacuity guard: without the main thread's kill-all an eager pipeline must be able to hang
+    work.append((2, 4, 1, False, (1, 2), ("saver", 2, 0), False))
+    res = V.pmap(model_job, work)
+    for r in res:
+        if r["out"]:
+            raise V.MachineryError("Pipeline.tla failed to run: " + r["out"])
+        chk.states += r["distinct"]
+        chk.transitions += r["generated"]
+        chk.tlc_runs.append(dict(what=f"Pipeline.tla {r['arg']}", generated=r["generated"], distinct=r["distinct"], depth=r["depth"],
+                                 ok=r["ok"], violated=r["violated"], wall_s=round(r["wall"], 1)))
+        if r["arg"][-1] and r["violated"]:
+            chk.extra.setdefault("design_violations", []).append(dict(config=r["arg"], violated=r["violated"]))
+        if not r["arg"][-1] and not r["violated"]:
+            raise V.MachineryError("Pipeline.tla without the main thread's kill-all still satisfies every property: no teeth")
+    chk.extra["pipeline_model_configurations"] = len(work)
+
+
 def run(chk):
     V.quiet_threads()
+    model_check(chk)
     S = scenarios(chk.tier)
     nsched = 6 if chk.tier == "quick" else 40
     work = [(sc, [chk.seed * 1000 + i for i in range(nsched)]) for sc in S]
